@@ -496,6 +496,13 @@ def check_spec(case, impl):
             sc = abs(w[1]) if w[0] == "n" else 0
             if not field_ok(r[pos], w, max(sc, 1)):
                 probs.append(("C15:passthrough", "tick %d: %s is %r, expected %s" % (s[0], name, r[pos], w[1])))
+            elif w[0] == "n" and len(s) > 7:
+                # "control number and channel pass through unchanged": a number that is the same at both ends of the segment
+                # arrives as exactly that number (a device makes int() of it: 2.9999999999999996 is channel 2, not 3)
+                i_seg = s[7][0]
+                a_f, b_f = pts[i_seg][name], pts[min(i_seg + 1, len(pts) - 1)][name]
+                if is_num(a_f) and a_f == b_f and not (r[pos] == py_of(a_f)):
+                    probs.append(("C15:passthrough", "tick %d: the constant %s %r arrives as %r" % (s[0], name, py_of(a_f), r[pos])))
         if probs:
             return probs
     if len(impl) > len(spec):
